@@ -70,9 +70,5 @@ pub fn vx_parse_Ipv6Addr(s: &String) -> (r: std::result::Result<Ipv6Addr, ()>)
     ensures r is Ok ==> ip6_display(r->Ok_0.o@) == s@, r is Err ==> forall|o: Seq<u8>| o.len() == 16 ==> #[trigger] ip6_display(o) != s@
 { unimplemented!() }
 pub trait VxAsBytes { spec fn vx_bytes(&self) -> Seq<u8>; }
-// a String's bytes are valid UTF-8 and decode to the string (String invariant)
-pub uninterp spec fn utf8_encode(s: Seq<char>) -> Seq<u8>;
-pub broadcast axiom fn axiom_utf8_roundtrip(s: Seq<char>)
-    ensures #[trigger] valid_utf8(utf8_encode(s)), utf8_decode(utf8_encode(s)) == s;
 #[verifier::external_body]
 pub fn vx_as_bytes(s: &String) -> (r: &[u8]) ensures r@ == utf8_encode(s@) { s.as_bytes() }
